@@ -29,6 +29,12 @@ def linf (p q : Array Int) : Int := Id.run do
     if acc < d then acc := d
   return acc
 
+def sqL2 (p q : Array Int) : Int := Id.run do
+  let mut acc : Int := 0
+  for t in [0:p.size] do
+    acc := acc + (p[t]! - q[t]!) * (p[t]! - q[t]!)
+  return acc
+
 def dot (p q : Array Int) : Int := Id.run do
   let mut acc : Int := 0
   for t in [0:p.size] do
@@ -76,7 +82,10 @@ def mkSpace (fs : List (String × String)) : Except String Space := do
     | _ =>
       match pts? with
       | some pts =>
-        let d := if metric == "Linf" then fun (a b : Nat) => linf pts[a]! pts[b]! else fun (a b : Nat) => l1 pts[a]! pts[b]!
+        -- L2: the squared Euclidean distance stands for the Euclidean distance (same order; oracle-only leg)
+        let d := if metric == "Linf" then fun (a b : Nat) => linf pts[a]! pts[b]!
+          else if metric == "L2" then fun (a b : Nat) => sqL2 pts[a]! pts[b]!
+          else fun (a b : Nat) => l1 pts[a]! pts[b]!
         pure { N := pts.size, dist := d, lt := fun item a b => decide (d item a < d item b) }
       | none => throw "bad-pts"
 
